@@ -1,49 +1,88 @@
 """C18 Profile compression conserves the turbulence it compresses.
 
 E1 x E5: every profile of a bounded lattice (layer counts, regular and irregular height
-ladders including the rounding-sensitive ones, all strength sequences over a small
-alphabet, wind patterns) x every target count 1 <= L < N is pushed through the three
-compression methods.  For optimal grouping the only environment input - the answers of
-numpy.random.choice in the random restarts - is intercepted and EVERY sequence of answers
-(every ordered sample without replacement the call may return, for R = 0, 1, 2 restarts)
-is enumerated, i.e. all states of the global generator as far as the algorithm can see them.
+ladders including the rounding-sensitive ones and one with repeated heights, all strength
+sequences over a small alphabet that contains zero, wind patterns) x every target count
+1 <= L < N is pushed through the three compression methods.  For optimal grouping the only
+environment input - what the draw primitives of NumPy's global generator answer in the random
+restarts - is owned by the check: EVERY draw primitive of the global generator is intercepted,
+and for whichever primitive the library turns out to call (choice / permutation / shuffle /
+randint) EVERY answer it may give is enumerated, request by request, as a tree (R = 0, 1, 2
+restarts), i.e. all states of the global generator as far as the algorithm can see them.  How
+the library draws is not prescribed: a request that cannot be enumerated, or a route to the
+generator that is not intercepted, only withdraws the claim of exhaustiveness (statistic
+og_answer_tree_not_claimed, seeds swept instead); the stated clauses are judged on every run.
 """
+import fractions
+import inspect
 import itertools
 import math
+import sys
 
 import numpy
 
 from mc import Out, Case
-from mc.env import choice_oracle, rng_state_digest
+from mc.env import rng_state_digest
 from mc.refmodels import profiles as ref
+from mc import variants
 
 PROPERTY = "C18"
 LEVEL = "model_checking"
 ENGINES = ["E1-product-enumeration", "E5-environment-answers"]
 TECHNIQUE = ("bounded exhaustive enumeration of profiles x target layer counts; for optimal grouping, exhaustive "
-             "enumeration of every answer sequence of the intercepted numpy.random.choice (environment-answer tree), "
-             "each run compared with a brute-force reference model")
+             "enumeration of every answer sequence of the intercepted draw primitives of NumPy's global generator "
+             "(environment-answer tree, discovered request by request from what the library actually asks), "
+             "each run compared with a brute-force reference model; storage / layer-order / caller-reuse variants "
+             "of the inputs judged by the same stated clauses")
 RULE = ("case = (profile family, N); inside a case every strength/wind pattern, every L in 1..N-1 and (optimal "
-        "grouping) every answer sequence of numpy.random.choice for R in {0,1,2} is executed; non-trivial = L >= 2 "
+        "grouping) every answer sequence of the draw primitives for R in {0,1,2} is executed; non-trivial = L >= 2 "
         "and N >= 3 (counted per executed run)")
 ASSUMPTIONS = [
-    "the random restarts of optimal grouping observe the global generator only through numpy.random.choice "
-    "(verified on every run: the request has the expected population/size/replace and the global generator state "
-    "is untouched when choice is intercepted)",
-    "profiles: N <= 8 (quick) / 12 (thorough) layers, strengths from {1,2,5}e-15 patterns, heights from the listed "
-    "ladders; GCTM only on profiles whose L equal-thickness slabs are all non-empty (as the property states)",
-    "'equal split' = the documented starting grouping linspace(0, N, L+1, dtype=int)[1:-1]",
-    "GCTM accuracy clause is a 5 % bound on scaled moment residuals (optimiser accuracy is not sharper)",
+    "the random restarts of optimal grouping observe the global generator only through its draw primitives "
+    "(numpy.random.choice / permutation / shuffle / randint ..., also when imported by name or reached as methods of "
+    "the global RandomState); every valid answer of a primitive is taken to be reachable from some generator state. "
+    "Checked on every run, never assumed: a request that is not enumerable (continuous draw, weights, too many "
+    "answers), a generator state that moves although no request was passed through, or a tree above the budget "
+    "is recorded as og_answer_tree_not_claimed and replaced by a sweep over seeds of the real generator",
+    "profiles: N <= 8 (quick) / 12 (thorough) layers, strengths from {0,1,2,5}e-15 patterns (never all zero), "
+    "heights from the listed ladders; GCTM only on profiles whose L equal-thickness slabs are all non-empty (as the "
+    "property states) for every way of rounding a layer that sits within 1e-9 slab widths of a slab edge, with "
+    "non-zero strengths and metre-scale heights",
+    "'equal split' = any of the three readings of the documented starting grouping: linspace(0, N, L+1, dtype=int)"
+    "[1:-1] as last-index-of-group or as first-index-of-next-group, or group sizes differing by at most one "
+    "(array_split); the cost bound is the largest of the three",
+    "GCTM accuracy clause is a 5 % bound on the scaled moment residual vector (relative to the moment vector; the "
+    "optimiser's accuracy is not sharper; the unchanged library measures <= 1 % on every case of the lattice), "
+    "loosened to 10 x what an independent bounded least-squares fit reaches from the same start when that is larger; "
+    "for L <= 4 on the few-layer lattice profiles that reach 0.5 .. 2 scaling heights also 1 % on the total Cn2 and "
+    "10 % on each single moment (library: <= 0.12 % and <= 1.7 %; on the 100-layer exponential profiles the library "
+    "itself reaches 0.45 % / 8.6 %, so there the two figures are only recorded)",
+    "a layer is a (height, strength) pair of numbers: a NaN/inf height of an output layer counts as a missing layer "
+    "even when its strength is zero (clause el_heights_finite; the moment sums themselves skip zero-strength layers)",
 ]
 LEVEL_TEXT = ("All profiles of the lattice and all target counts are enumerated; for optimal grouping the tree of "
-              "every possible numpy.random.choice answer sequence (R <= 2 restarts) is explored completely for "
-              "N <= 7 (quick) / 8 (thorough), so the verdict does not depend on the state of the global generator; "
-              "each result is compared with a brute-force optimum over all contiguous groupings.")
+              "every possible answer sequence of the draw primitives the library calls (R <= 2 restarts) is explored "
+              "completely for N <= 7 (quick) / 8 (thorough) - the statistics og_answer_trees_complete / "
+              "og_answer_tree_not_claimed say for how many (profile, R) pairs - so the verdict does not depend on the "
+              "state of the global generator; each result is compared with a brute-force optimum over all contiguous "
+              "groupings.")
 LEVEL_NOTE = ("Trusted: the reference model mc/refmodels/profiles.py (brute force), numpy. Not covered: N above the "
-              "bound, strengths outside the alphabet, R > 2, non-increasing height inputs.")
+              "bound, strengths outside the alphabet, exhaustive answers for R > 2 (R = 3 only with seeds), optimal "
+              "grouping on height inputs that are not non-decreasing, GCTM with strengths far from cn2_scaling or "
+              "heights above 2 h_scaling (the unchanged library loses up to 14 % of the total Cn2 there: reported, "
+              "not asserted).")
 
 
-GCTM_TOL = 2e-2
+# 5 % of the norm of the scaled moment vector.  Measured on the unchanged library: <= 0.0022 on the lattice
+# (L <= 6), <= 0.0099 on the exponential profiles at default scaling, <= 0.0070 with the other scalings, so the
+# margin is a factor 5 or more; the figure moves with the path L-BFGS-B happens to take (finite-difference
+# gradient), which is why it is not tighter.
+GCTM_TOL = 5e-2
+GCTM_M0_TOL = 1e-2       # library: <= 1.2e-3 where asserted (lattice profiles)
+GCTM_EACH_TOL = 1e-1     # library: <= 1.7e-2 where asserted (lattice profiles)
+MAX_BRANCH = 5040        # answers of one request (7!)
+MAX_REQUESTS = 40        # enumerated requests in one library call
+SWEEP_SEEDS = 8
 
 
 def _ladders(N):
@@ -55,8 +94,12 @@ def _ladders(N):
     out["clustered"] = numpy.array(([0., 50., 100., 150., 9000., 9100., 15000., 15050., 15100., 20000., 20001., 20002.])[:N])
     out["gaps"] = numpy.cumsum(numpy.array([0., 10., 4000., 20., 7000., 5., 3000., 1., 900., 2500., 10., 60.])[:N])
     out["geometric"] = 100. * 1.7 ** numpy.arange(N)
+    # repeated heights (ground layer + dome seeing both at 0 m, two instruments reporting the same altitude)
+    out["dupground"] = numpy.array(([0., 0., 50., 4000., 4000., 9000., 12000., 12000., 15000., 18000., 18000., 20000.])[:N])
     return out
 
+
+OG_LADDERS = ("lin:0-15000", "clustered", "gaps", "geometric", "dupground")
 
 # high-contrast profiles on which the local search of optimal grouping has local minima that are
 # worse than the equal split (found once by an offline search; they only enlarge the alphabet)
@@ -83,14 +126,52 @@ def _strength_patterns(N, tier):
     return pats
 
 
+def _zero_patterns(N, tier, full):
+    """strength sequences with zero-strength layers (SCIDAR-type profiles are full of them), never all zero.
+    full: for the small N every sequence over {0,1,2,5}e-15 that contains a zero; else a fixed handful that
+    produces populated all-zero slabs / groups at the bottom, in the middle and at the top"""
+    vals = (0., 1e-15, 2e-15, 5e-15)
+    if full and N <= (4 if tier == "quick" else 5):
+        return [numpy.array(s) for s in itertools.product(vals, repeat=N) if 0. in s and any(s)]
+    base = [numpy.array(([1e-13, 0., 0., 2e-14, 0., 0., 0., 5e-15, 0., 0., 1e-15, 0.])[:N]),
+            numpy.array([0.] * (N - 1) + [5e-15]), numpy.array([2e-15] + [0.] * (N - 1)),
+            numpy.array([0. if i % 2 == 0 else 2e-15 for i in range(N)]),
+            numpy.array([2e-15, 5e-15][:max(N - 1, 1)] + [0.] * max(N - 3, 0) + [1e-15])[:N]]
+    out = []
+    for b in base:
+        if len(b) == N and b.any() and not b.all() and not any(numpy.array_equal(b, x) for x in out):
+            out.append(b)
+    return out
+
+
 def _Ns(tier):
     return range(2, 9) if tier == "quick" else range(2, 13)
 
 
+def _og_top(tier):
+    return 7 if tier == "quick" else 8
+
+
+def _tree_budget(tier):
+    # runs per (profile, R); the unchanged library needs 601 (quick: N=6, R=2) / 14521 (thorough: N=7, R=2)
+    return 2500 if tier == "quick" else 40000
+
+
 def BOUNDS(tier):
-    return {"N": list(_Ns(tier)), "ladders": sorted(_ladders(4)), "strength_alphabet": [1e-15, 2e-15, 5e-15],
-            "optimal_grouping": {"R": [0, 1, 2], "complete_answer_tree_up_to_N": 7 if tier == "quick" else 8,
-                                 "R2_up_to_N": 6 if tier == "quick" else 7}}
+    return {"N": list(_Ns(tier)), "ladders": sorted(_ladders(4)), "strength_alphabet": [0.0, 1e-15, 2e-15, 5e-15],
+            "optimal_grouping": {"R": [0, 1, 2], "complete_answer_tree_up_to_N": _og_top(tier),
+                                 "R2_up_to_N": 6 if tier == "quick" else 7, "ladders": list(OG_LADDERS),
+                                 "answers_per_request_at_most": MAX_BRANCH, "runs_per_tree_at_most": _tree_budget(tier),
+                                 "real_generator_seeds": [0, 1], "R3_with_seeds_only": True},
+            "GCTM": {"L_lattice_at_most": 5 if tier == "quick" else 6, "L_exponential_profiles": [2, 3, 5, 6, 8]},
+            "largest_profile": 4097, "long_profiles": list(_long_Ns(tier)),
+            "storage_variants": ["int64/int32 heights and winds", "float32", "strided columns of one table",
+                                 "read-only"],
+            "layer_orders": ["ascending", "descending", "one fixed shuffle"]}
+
+
+def _long_Ns(tier):
+    return (65, 257, 513, 4097) if tier == "quick" else (65, 130, 257, 513, 770, 1030, 4097)
 
 
 def cases(tier):
@@ -98,36 +179,217 @@ def cases(tier):
         for name in sorted(_ladders(N)):
             yield Case("el:N=%d:%s" % (N, name), {"kind": "el", "N": N, "ladder": name, "tier": tier}, N >= 3)
             yield Case("gctm:N=%d:%s" % (N, name), {"kind": "gctm", "N": N, "ladder": name, "tier": tier}, N >= 3)
-        top = 7 if tier == "quick" else 8
-        if N <= top:
-            for name in ("lin:0-15000", "clustered", "gaps", "geometric"):
+        if N <= _og_top(tier):
+            for name in OG_LADDERS:
                 for L in range(1, N):
                     yield Case("og:N=%d:%s:L=%d" % (N, name, L),
                                {"kind": "og", "N": N, "ladder": name, "tier": tier, "L": L}, N >= 3 and L >= 2)
     # realistic many-layer profiles (exponentially decaying strength, with and without a jet-stream bump)
     for scale_h in (1500., 2500., 4000.):
         yield Case("gctm:exp:H=%g" % scale_h, {"kind": "gctm_exp", "H": scale_h, "tier": tier}, True)
-    # profiles of several hundred to several thousand layers (a pre-binning or blocked implementation starts there)
-    for N in ((513, 4097) if tier == "quick" else (513, 770, 1030, 4097)):
+    # profiles of several tens to several thousand layers (a pre-binning or blocked implementation starts there)
+    for N in _long_Ns(tier):
         yield Case("long:N=%d" % N, {"kind": "long", "N": N, "og": N <= (513 if tier == "quick" else 1030)}, True)
     for name in sorted(FIXED):
         N = len(FIXED[name][0])
         for L in range(1, min(N, 5 if tier == "quick" else 6)):
             yield Case("og:fixed:%s:L=%d" % (name, L),
                        {"kind": "og", "N": N, "ladder": "fixed:" + name, "tier": tier, "L": L}, L >= 2)
+    # the same values held differently by the caller
+    for meth in ("el", "og", "gctm"):
+        yield Case("storage:%s" % meth, {"kind": "storage", "method": meth, "tier": tier}, True)
+        yield Case("reuse:%s" % meth, {"kind": "reuse", "method": meth, "tier": tier}, True)
+    yield Case("order", {"kind": "order", "tier": tier}, True)
+    yield Case("conventions", {"kind": "conventions", "tier": tier}, True)
 
 
 def evaluate(p):
-    if p["kind"] == "el":
+    kind = p["kind"]
+    if kind == "el":
         return _equivalent_layers(p)
-    if p["kind"] == "gctm":
+    if kind == "gctm":
         return _gctm(p)
-    if p["kind"] == "gctm_exp":
+    if kind == "gctm_exp":
         return _gctm_exp(p)
-    if p["kind"] == "long":
+    if kind == "long":
         return _long(p)
+    if kind == "storage":
+        return _storage(p)
+    if kind == "reuse":
+        return _reuse(p)
+    if kind == "order":
+        return _order(p)
+    if kind == "conventions":
+        return _conventions(p)
     return _optimal_grouping(p)
 
+
+# ------------------------------------------------------------------------------------------------------------
+# judges: the stated clauses on one result (used for every way the inputs are presented)
+# ------------------------------------------------------------------------------------------------------------
+
+def _f64(x):
+    return numpy.asarray(x, dtype=float)
+
+
+def _judge_el(o, sub, h, cn2, w, L, res, rt=1.0):
+    """equivalent layers.  h, cn2, w: the VALUES handed to the library (float64 copies); rt scales the rounding
+    tolerances (1 for float64 storage).  Tolerances: the library measures <= 5e-16 on totals and <= 2e-15 on the
+    moments; a cumulative-sum implementation would reach N*eps = 4.5e-13 at N = 4097 on the moments."""
+    h, cn2 = _f64(h), _f64(cn2)
+    hL, cL = _f64(res[0]), _f64(res[1])
+    sp = "" if rt == 1.0 else "_single_precision"       # (own clause names: own tolerances in the evidence)
+    o.check("el_exactly_L_layers", hL.shape == (L,) and cL.shape == (L,), sub=sub, detail=[hL.shape, cL.shape])
+    if hL.shape != (L,) or cL.shape != (L,):
+        return
+    o.check("el_strengths_non_negative", bool(numpy.all(cL >= 0)), sub=sub)
+    tot = float(cn2.sum())
+    o.close("el_total_cn2_conserved" + sp, abs(cL.sum() - tot) / tot, 1e-12 * rt, sub=sub,
+            detail={"in": tot, "out": float(cL.sum()), "h": h, "L": L})
+    # a zero-strength output layer carries no turbulence: its height / wind does not enter the moments
+    pos = cL > 0
+    m_in = float((cn2 * h ** (5. / 3)).sum())
+    with numpy.errstate(invalid="ignore"):
+        m_out = float((cL[pos] * hL[pos] ** (5. / 3)).sum())
+    scale = max(m_in, tot * max(h.max(), 1e-30) ** (5. / 3) * 1e-30)
+    o.close("el_height_moment_conserved" + sp, abs(m_out - m_in) / scale if scale > 0 else abs(m_out - m_in),
+            1e-10 * rt, sub=sub, detail={"in": m_in, "out": m_out, "h_out": hL, "cn2_out": cL})
+    o.check("el_heights_finite", bool(numpy.all(numpy.isfinite(hL))), sub=sub, detail=hL)
+    if w is not None:
+        w = _f64(w)
+        wL = _f64(res[2])
+        o.check("el_exactly_L_layers", wL.shape == (L,), sub=sub + ":wind")
+        if wL.shape == (L,):
+            v_in = float((cn2 * w ** (5. / 3)).sum())
+            with numpy.errstate(invalid="ignore"):
+                v_out = float((cL[pos] * wL[pos] ** (5. / 3)).sum())
+            o.close("el_wind_moment_conserved" + sp, abs(v_out - v_in) / v_in, 1e-10 * rt, sub=sub)
+            if not numpy.all(numpy.isfinite(wL)):
+                o.stat("el_non_finite_wind_of_zero_strength_layer_seen", 1)
+
+
+def _equal_split_cost(h, cn2, N, L):
+    """the largest cost among the readings of 'the equal split' (see ASSUMPTIONS)"""
+    lin = [int(x) for x in numpy.linspace(0, N, L + 1, dtype=int)[1:-1]]
+    sizes = [N // L + (1 if i < N % L else 0) for i in range(L)]
+    cands = [tuple(lin), tuple(x - 1 for x in lin), tuple(int(x) - 1 for x in numpy.cumsum(sizes)[:-1])]
+    costs = []
+    for s in cands:
+        if len(set(s)) == len(s) and all(0 <= x <= N - 2 for x in s):
+            costs.append(ref.cost_of_splits(h, cn2, s))
+    return max(costs) if costs else None
+
+
+def _judge_og(o, sub, h, cn2, L, hL, cL, best=None, eq=None, rt=1.0, outcome=None):
+    """optimal grouping: the stated clauses; with best/eq (brute force, small N) also the cost clauses"""
+    h, cn2 = _f64(h), _f64(cn2)
+    hL, cL = _f64(hL), _f64(cL)
+    o.check("og_exactly_L_layers", hL.shape == (L,) and cL.shape == (L,), sub=sub,
+            detail={"heights": hL, "cn2": cL, "L": L})
+    if hL.shape != (L,) or cL.shape != (L,):
+        return
+    tot = float(cn2.sum())
+    o.close("og_total_cn2_conserved" + ("" if rt == 1.0 else "_single_precision"), abs(cL.sum() - tot) / tot,
+            1e-12 * rt, sub=sub)
+    o.check("og_strengths_non_negative", bool(numpy.all(cL >= 0)), sub=sub)
+    o.check("og_heights_are_input_heights", bool(numpy.all(numpy.isin(hL, h))), sub=sub, detail=hL)
+    strictly = bool(numpy.all(numpy.diff(h) > 0))        # repeated input heights may be returned repeatedly
+    d = numpy.diff(hL)
+    o.check("og_heights_increasing", bool(numpy.all(d > 0) if strictly else numpy.all(d >= 0)) if L > 1 else True,
+            sub=sub, detail=hL)
+    if best is None:
+        return
+    # every input layer in exactly one group: the output must be explained by a contiguous partition
+    cost = ref.cost_of_output(h, cn2, hL, cL)
+    o.check("og_output_is_a_contiguous_grouping", cost is not None, sub=sub, detail={"heights": hL, "cn2": cL})
+    if cost is not None:
+        scale = max(eq, best, 1e-300)
+        ct = 1e-9 * min(rt, 1e3)       # costs are recomputed here in double precision from the returned grouping
+        o.check("og_cost_not_worse_than_equal_split", cost <= eq + ct * scale, sub=sub,
+                measure=(cost - eq) / scale, tol=ct, detail={"cost": cost, "equal_split": eq, "optimum": best})
+        o.check("og_cost_not_below_brute_force_optimum", cost >= best - ct * scale, sub=sub,
+                detail={"cost": cost, "optimum": best})
+        if outcome is not None:
+            o.outcome(outcome + [round(cost / scale, 9)])
+
+
+def _independent_fit_residual(h, cn2, L, hs, cs):
+    """what a bounded least-squares fit of the scaled moments reaches from the equivalent-layers start
+    (only consulted when the library's residual exceeds GCTM_TOL); None if it cannot be computed"""
+    try:
+        from scipy.optimize import least_squares
+        mom0 = ref.moments(h / hs, cn2 / cs, L)
+        g = ref.equivalent_layers(h, cn2, L)
+        x0 = numpy.maximum(numpy.hstack([g[0] / hs, g[1] / cs]), 1e-12)
+        r = least_squares(lambda x: ref.moments(x[:L], x[L:], L) - mom0, x0, bounds=(0., numpy.inf))
+        return float(numpy.linalg.norm(r.fun) / numpy.linalg.norm(mom0))
+    except Exception:
+        return None
+
+
+def _judge_gctm(o, sub, h, cn2, L, hL, cL, hs=10000., cs=100e-15, clause="gctm_moments_reproduced", single=True):
+    """moment-conserving method.  'to optimiser accuracy': the optimiser works on the scaled moments (heights /
+    h_scaling, strengths / cn2_scaling), so its accuracy is an absolute one in those units: the residual vector
+    is compared with the norm of the moment vector."""
+    h, cn2 = _f64(h), _f64(cn2)
+    hL, cL = _f64(hL), _f64(cL)
+    ok_shape = hL.shape == (L,) and cL.shape == (L,)
+    o.check("gctm_exactly_L_layers", ok_shape, sub=sub)
+    if not ok_shape:
+        o.close(clause, float("inf"), GCTM_TOL, sub=sub)
+        return
+    o.check("gctm_strengths_non_negative", bool(numpy.all(cL >= 0)) and bool(numpy.all(numpy.isfinite(hL))), sub=sub,
+            detail={"cn2": cL, "h": hL})
+    mom0 = ref.moments(h / hs, cn2 / cs, L)
+    mom = ref.moments(hL / hs, cL / cs, L)
+    resid = float(numpy.linalg.norm(mom - mom0) / numpy.linalg.norm(mom0))
+    tol = GCTM_TOL
+    if not resid <= tol:
+        indep = _independent_fit_residual(h, cn2, L, hs, cs)
+        if indep is not None and 10. * indep > tol:
+            tol = 10. * indep
+            o.stat("gctm_tolerance_taken_from_independent_fit", 1)
+    o.close(clause, resid, tol, sub=sub, detail={"mom_in": mom0, "mom_out": mom})
+    rel = numpy.abs(mom - mom0) / numpy.maximum(numpy.abs(mom0), 1e-300)
+    o.note("gctm_worst_per_moment_relative_residual_seen",
+           max(float(rel.max()), o.notes.get("gctm_worst_per_moment_relative_residual_seen", 0.0)))
+    if single and L <= 4 and 0.5 <= h.max() / hs <= 2.0:
+        # every moment is of order one in these units, so each one is visible to the optimiser
+        o.close("gctm_total_cn2_reproduced", float(rel[0]), GCTM_M0_TOL, sub=sub)
+        o.close("gctm_each_moment_reproduced", float(rel.max()), GCTM_EACH_TOL, sub=sub, detail={"relative": rel})
+    else:
+        o.note("gctm_worst_total_cn2_residual_outside_asserted_range",
+               max(float(rel[0]), o.notes.get("gctm_worst_total_cn2_residual_outside_asserted_range", 0.0)))
+
+
+def _slabs_clearly_nonempty(h, L):
+    """every one of the L equal-thickness slabs holds a layer, whichever way an implementation rounds a layer
+    that sits (within 1e-9 slab widths) on a slab edge.  Exact rational arithmetic on the float values."""
+    hq = [fractions.Fraction(float(x)) for x in h]
+    lo, hi = min(hq), max(hq)
+    if hi == lo:
+        return L == 1
+    eps = fractions.Fraction(1, 10 ** 9)
+    filled = set()
+    for x in hq:
+        if x == hi:
+            filled.add(L - 1)
+            continue
+        if x == lo:
+            filled.add(0)
+            continue
+        t = (x - lo) * L / (hi - lo)
+        k = t.numerator // t.denominator
+        fr = t - k
+        if fr < eps or 1 - fr < eps:
+            continue
+        filled.add(int(k))
+    return len(filled) == L
+
+
+# ------------------------------------------------------------------------------------------------------------
+# equivalent layers
+# ------------------------------------------------------------------------------------------------------------
 
 def _winds(N):
     # the last one is an integer-typed array (whole m/s): the effective wind of a slab is not an integer
@@ -140,38 +402,28 @@ def _equivalent_layers(p):
     o = Out()
     N = p["N"]
     h = _ladders(N)[p["ladder"]]
-    for pi, cn2 in enumerate(_strength_patterns(N, p["tier"])):
+    pats = [("%d" % i, c) for i, c in enumerate(_strength_patterns(N, p["tier"]))]
+    pats += [("z%d" % i, c) for i, c in enumerate(_zero_patterns(N, p["tier"], True))]
+    for pi, cn2 in pats:
         for L in range(1, N):
             for wi, w in enumerate([None] + _winds(N)):
-                sub = "p=%d:L=%d:w=%s" % (pi, L, "none" if w is None else wi)
+                sub = "p=%s:L=%d:w=%s" % (pi, L, "none" if w is None else wi)
                 res = pc.equivalent_layers(h.copy(), cn2.copy(), L) if w is None else \
                     pc.equivalent_layers(h.copy(), cn2.copy(), L, w.copy())
                 o.stat("lib_calls", 1)
                 if L >= 2 and N >= 3:
                     o.stat("nontrivial", 1)
-                hL, cL = numpy.asarray(res[0], float), numpy.asarray(res[1], float)
-                o.check("el_exactly_L_layers", hL.shape == (L,) and cL.shape == (L,), sub=sub, detail=[hL.shape, cL.shape])
-                o.check("el_strengths_non_negative", bool(numpy.all(cL >= 0)), sub=sub)
-                tot = cn2.sum()
-                o.close("el_total_cn2_conserved", abs(cL.sum() - tot) / tot, 1e-12, sub=sub,
-                        detail={"in": float(tot), "out": float(cL.sum()), "h": h, "L": L})
-                m_in = float((cn2 * h ** (5. / 3)).sum())
-                with numpy.errstate(invalid="ignore"):
-                    m_out = float((cL * hL ** (5. / 3)).sum())
-                scale = max(m_in, tot * max(h.max(), 1e-30) ** (5. / 3) * 1e-30)
-                o.close("el_height_moment_conserved", abs(m_out - m_in) / scale if scale > 0 else abs(m_out - m_in),
-                        1e-10, sub=sub, detail={"in": m_in, "out": m_out, "h_out": hL, "cn2_out": cL})
-                o.check("el_heights_finite", bool(numpy.all(numpy.isfinite(hL))), sub=sub, detail=hL)
-                if w is not None:
-                    wL = numpy.asarray(res[2], float)
-                    o.check("el_exactly_L_layers", wL.shape == (L,), sub=sub + ":wind")
-                    v_in = float((cn2 * w ** (5. / 3)).sum())
-                    with numpy.errstate(invalid="ignore"):
-                        v_out = float((cL * wL ** (5. / 3)).sum())
-                    o.close("el_wind_moment_conserved", abs(v_out - v_in) / v_in, 1e-10, sub=sub)
-                o.outcome([hL, cL])
+                _judge_el(o, sub, h, cn2, w, L, res)
+                try:
+                    o.outcome([_f64(res[0]), _f64(res[1])])
+                except Exception:
+                    pass
     return o
 
+
+# ------------------------------------------------------------------------------------------------------------
+# moment-conserving method
+# ------------------------------------------------------------------------------------------------------------
 
 def _gctm(p):
     from aotools.turbulence import profile_compression as pc
@@ -181,46 +433,326 @@ def _gctm(p):
     pats = _strength_patterns(N, p["tier"])
     if len(pats) > 12:
         pats = pats[::max(1, len(pats) // 12)]
+    Ltop = 5 if p["tier"] == "quick" else 6
     for pi, cn2 in enumerate(pats):
         # strengths of the order the default cn2_scaling (1e-13) is documented for
         cn2 = cn2 * 100.
-        for L in range(1, min(N, 4)):
+        for L in range(1, min(N, Ltop + 1)):
             sub = "p=%d:L=%d" % (pi, L)
-            if not ref.slabs_all_nonempty(h, L):
-                o.stat("gctm_outside_domain_empty_slab", 1)
-                continue
             if h.max() <= 10.:      # default scaling (10 km) assumes metre-scale heights
                 o.stat("gctm_outside_domain_scale", 1)
                 continue
+            if not _slabs_clearly_nonempty(h, L):
+                o.stat("gctm_outside_domain_empty_slab_or_layer_on_slab_edge", 1)
+                continue
             hL, cL = pc.GCTM(h.copy(), cn2.copy(), L)
             o.stat("lib_calls", 1)
-            hL, cL = numpy.asarray(hL, float), numpy.asarray(cL, float)
-            o.check("gctm_exactly_L_layers", hL.shape == (L,) and cL.shape == (L,), sub=sub)
-            o.check("gctm_strengths_non_negative", bool(numpy.all(cL >= 0)) and bool(numpy.all(numpy.isfinite(hL))), sub=sub)
-            hs, cs = 10000., 100e-15
-            mom0 = ref.moments(h / hs, cn2 / cs, L)
-            mom = ref.moments(hL / hs, cL / cs, L)
-            # "to optimiser accuracy": the optimiser works on the scaled moments (heights / 10 km,
-            # strengths / 1e-13), so its accuracy is an absolute one in those units: the residual
-            # vector is compared with the norm of the moment vector
-            resid = float(numpy.linalg.norm(mom - mom0) / numpy.linalg.norm(mom0))
-            o.close("gctm_moments_reproduced", resid, GCTM_TOL, sub=sub, detail={"mom_in": mom0, "mom_out": mom})
-            rel = float(numpy.max(numpy.abs(mom - mom0) / numpy.maximum(numpy.abs(mom0), 1e-300)))
-            o.note("gctm_worst_per_moment_relative_residual_seen", max(rel, o.notes.get("gctm_worst_per_moment_relative_residual_seen", 0.0)))
-            # objective no worse than at the documented starting point (equivalent layers)
-            g = ref.equivalent_layers(h, cn2, L)
-            obj0 = float(((ref.moments(g[0] / hs, g[1] / cs, L) - mom0) ** 2).sum())
-            obj = float(((mom - mom0) ** 2).sum())
-            o.check("gctm_not_worse_than_start", obj <= obj0 * (1 + 1e-9) + 1e-18, sub=sub, detail=[obj, obj0])
+            _judge_gctm(o, sub, h, cn2, L, hL, cL)
+            # the documented starting point (equivalent layers): observation only, the statement does not say
+            # where the fit starts
+            try:
+                hs, cs = 10000., 100e-15
+                mom0 = ref.moments(h / hs, cn2 / cs, L)
+                g = ref.equivalent_layers(h, cn2, L)
+                obj0 = float(((ref.moments(g[0] / hs, g[1] / cs, L) - mom0) ** 2).sum())
+                obj = float(((ref.moments(_f64(hL) / hs, _f64(cL) / cs, L) - mom0) ** 2).sum())
+                if obj > obj0 * (1 + 1e-9) + 1e-18:
+                    o.stat("gctm_objective_above_equivalent_layers_start_seen", 1)
+            except Exception:
+                pass
             if L >= 2:
                 o.stat("nontrivial", 1)
     return o
 
 
-def _answers(N, L):
-    """every ordered sample without replacement of size L-1 from arange(N-2)"""
-    return list(itertools.permutations(range(max(N - 2, 0)), L - 1))
+# ------------------------------------------------------------------------------------------------------------
+# the draw primitives of NumPy's global generator, owned by the check
+# ------------------------------------------------------------------------------------------------------------
 
+_INDEX_CACHE = {}
+
+
+def _index_tuples(n, k, replace):
+    key = (n, k, replace)
+    if key not in _INDEX_CACHE:
+        _INDEX_CACHE[key] = list(itertools.product(range(n), repeat=k)) if replace else \
+            list(itertools.permutations(range(n), k))
+    return _INDEX_CACHE[key]
+
+
+def _count(n, k, replace):
+    return n ** k if replace else (math.perm(n, k) if k <= n else 0)
+
+
+def _label(values):
+    vals = [int(v) if float(v) == int(v) else float(v) for v in values]
+    if not vals:
+        return "-"
+    if all(isinstance(v, int) and 0 <= v <= 9 for v in vals):
+        return "".join(map(str, vals))
+    return ",".join(map(str, vals))
+
+
+def _size_to_k(size):
+    """None (one scalar), an int or a 1-tuple; anything else is not enumerated"""
+    if size is None:
+        return None
+    if isinstance(size, (int, numpy.integer)) and not isinstance(size, bool):
+        return int(size)
+    if isinstance(size, (tuple, list)) and len(size) == 1 and isinstance(size[0], (int, numpy.integer)):
+        return int(size[0])
+    raise ValueError("size not enumerated")
+
+
+def _enum_choice(a, size=None, replace=True, p=None):
+    if p is not None:
+        return None
+    if isinstance(a, (int, numpy.integer)) and not isinstance(a, bool):
+        if (a <= 0 and size is None) or a > 10 ** 6:
+            return None
+        pop = numpy.arange(max(int(a), 0))
+    else:
+        pop = numpy.asarray(a)
+        if pop.ndim != 1:
+            return None
+    n = len(pop)
+    k = _size_to_k(size)
+    if k is None:
+        if n == 0 or n > MAX_BRANCH:
+            return None
+        return n, (lambda j: (pop[j], _label([pop[j]]) if pop.dtype.kind in "iuf" else str(j)))
+    if k < 0 or (k > 0 and n == 0) or (not replace and k > n):
+        return None                                 # numpy raises: let it
+    cnt = _count(n, k, bool(replace))
+    if cnt > MAX_BRANCH:
+        return None
+    idx = _index_tuples(n, k, bool(replace))
+
+    def get(j):
+        ii = numpy.array(idx[j], dtype=numpy.intp)
+        ans = pop[ii]
+        return ans, (_label(ans) if pop.dtype.kind in "iuf" else _label(ii))
+    return cnt, get
+
+
+def _enum_permutation(x):
+    if isinstance(x, (int, numpy.integer)) and not isinstance(x, bool):
+        pop = numpy.arange(int(x))
+    else:
+        pop = numpy.asarray(x)
+        if pop.ndim < 1:
+            return None
+    n = len(pop)
+    if n > 7:
+        return None
+    idx = _index_tuples(n, n, False)
+    return len(idx), (lambda j: (pop[numpy.array(idx[j], dtype=numpy.intp)].copy(), "P" + _label(idx[j])))
+
+
+def _enum_shuffle(x):
+    n = len(x)
+    if n > 7:
+        return None
+    idx = _index_tuples(n, n, False)
+
+    def get(j):
+        if isinstance(x, numpy.ndarray):
+            x[...] = x[numpy.array(idx[j], dtype=numpy.intp)].copy()
+        else:
+            x[:] = [x[i] for i in idx[j]]
+        return None, "S" + _label(idx[j])
+    return len(idx), get
+
+
+def _enum_randint(low, high=None, size=None, dtype=int):
+    for v in (low, high):
+        if v is not None and not (isinstance(v, (int, numpy.integer)) and not isinstance(v, bool)):
+            return None
+    lo, hi = (0, int(low)) if high is None else (int(low), int(high))
+    n = hi - lo
+    if n <= 0 or n > MAX_BRANCH:
+        return None
+    k = _size_to_k(size)
+    if k is None:
+        return n, (lambda j: (int(lo + j) if dtype is int else numpy.dtype(dtype).type(lo + j), "I" + _label([lo + j])))
+    if k < 0:
+        return None
+    cnt = _count(n, k, True)
+    if cnt > MAX_BRANCH:
+        return None
+    idx = _index_tuples(n, k, True)
+    return cnt, (lambda j: (numpy.array([lo + i for i in idx[j]], dtype=dtype), "I" + _label([lo + i for i in idx[j]])))
+
+
+def _enum_random_integers(low, high=None, size=None):
+    if high is None:
+        low, high = 1, low
+    return _enum_randint(low, int(high) + 1, size)
+
+
+_ENUMERATORS = {"choice": _enum_choice, "permutation": _enum_permutation, "shuffle": _enum_shuffle,
+                "randint": _enum_randint, "random_integers": _enum_random_integers}
+_STATE_API = ("seed", "get_state", "set_state", "get_bit_generator", "set_bit_generator")
+
+
+class _RandProxy(numpy.random.RandomState):
+    """stands in for numpy.random.mtrand._rand (still a RandomState for isinstance tests): draw methods go to the
+    oracle, everything else to the real global object"""
+
+    def __getattribute__(self, name):
+        d = object.__getattribute__(self, "__dict__")
+        if name in ("__dict__", "__class__"):
+            return object.__getattribute__(self, name)
+        if name in d["fakes"]:
+            return d["fakes"][name]
+        return getattr(d["real"], name)
+
+
+def _make_proxy(real, fakes):
+    try:
+        px = _RandProxy(0)
+        object.__getattribute__(px, "__dict__").update({"real": real, "fakes": fakes})
+        return px
+    except Exception:
+        return None
+
+
+class _Draws(object):
+    """Owns every draw primitive of NumPy's global generator between begin() and end(): the module-level functions
+    of numpy.random (= the bound methods of the global RandomState), the same objects imported by name into the
+    library's modules, and the methods of numpy.random.mtrand._rand.  An enumerable request is answered with
+    answer number script[i] (0 beyond the script) and logged; any other request is passed to the real primitive
+    and counted."""
+
+    def __init__(self, modules=()):
+        import numpy.random.mtrand as mt
+        self.mt = mt
+        self.rand = mt._rand
+        self.orig = {}
+        for name in dir(numpy.random):
+            if name.startswith("_") or name in _STATE_API:
+                continue
+            f = getattr(numpy.random, name, None)
+            if callable(f) and getattr(f, "__self__", None) is self.rand:
+                self.orig[name] = f
+        self.fakes = dict((name, self._make(name)) for name in self.orig)
+        by_id = dict((id(f), name) for name, f in self.orig.items())
+        self.sites = []
+        seen = set()
+        for ns in [numpy.random, mt] + list(modules):
+            if ns is None or id(ns) in seen:
+                continue
+            seen.add(id(ns))
+            try:
+                items = list(vars(ns).items())
+            except TypeError:
+                continue
+            for attr, val in items:
+                name = by_id.get(id(val))
+                if name is not None and val is self.orig[name]:
+                    self.sites.append((ns, attr, val, self.fakes[name]))
+        self.proxy = _make_proxy(self.rand, self.fakes)
+        self.active = False
+        self._reset(())
+
+    def _reset(self, script):
+        self.script = tuple(script)
+        self.trace = []          # number of answers of every enumerable request, in call order
+        self.chosen = []         # the answer number given to each
+        self.labels = []
+        self.primitives = []
+        self.passed_through = []
+        self.inconsistent = False
+
+    def _make(self, name):
+        def fake(*a, **k):
+            return self._request(name, a, k)
+        fake.__name__ = name
+        return fake
+
+    def _request(self, name, a, k):
+        spec = None
+        enum = _ENUMERATORS.get(name)
+        if enum is not None:
+            try:
+                spec = enum(*a, **k)
+            except Exception:
+                spec = None
+        if spec is None:
+            self.passed_through.append(name)
+            return self.orig[name](*a, **k)
+        n, get = spec
+        i = len(self.trace)
+        if i >= MAX_REQUESTS:
+            self.passed_through.append("more_than_%d_requests_in_one_call" % MAX_REQUESTS)
+            return self.orig[name](*a, **k)
+        # beyond the script the answers rotate (a rejection loop that waits for a new value terminates)
+        j = self.script[i] if i < len(self.script) else i % n
+        if j >= n:
+            self.inconsistent = True
+            j = j % n
+        try:
+            ans, label = get(j)
+        except Exception:                    # the check's own answer construction failed: not the library's fault
+            self.passed_through.append(name + "_answer_not_constructible")
+            return self.orig[name](*a, **k)
+        self.chosen.append(j)
+        self.trace.append(n)
+        self.labels.append(label)
+        self.primitives.append(name)
+        return ans
+
+    def begin(self, script=()):
+        self._reset(script)
+        for ns, attr, val, fake in self.sites:
+            setattr(ns, attr, fake)
+        if self.proxy is not None:
+            try:
+                self.mt._rand = self.proxy
+            except Exception:
+                pass
+        self.active = True
+
+    def end(self):
+        if self.active:
+            for ns, attr, val, fake in self.sites:
+                setattr(ns, attr, val)
+            try:
+                self.mt._rand = self.rand
+            except Exception:
+                pass
+            self.active = False
+
+
+class _NoDraws(object):
+    """interception could not be set up on this NumPy: every run uses the real generator, nothing is claimed"""
+    trace = labels = primitives = chosen = ()
+    passed_through = ("interception_unavailable",)
+    inconsistent = False
+
+    def begin(self, script=()):
+        pass
+
+    def end(self):
+        pass
+
+
+def _siblings(path, start, trace):
+    """the scripts that differ from the executed path in one request at or after `start` (and end there): together
+    with the recursion over their own runs this visits every leaf of the answer tree exactly once"""
+    for i in range(start, len(trace)):
+        for j in range(trace[i]):
+            if j != path[i]:
+                yield path[:i] + (j,)
+
+
+def _library_modules():
+    return [m for n, m in list(sys.modules.items()) if m is not None and (n == "aotools" or n.startswith("aotools."))]
+
+
+# ------------------------------------------------------------------------------------------------------------
+# optimal grouping
+# ------------------------------------------------------------------------------------------------------------
 
 def _optimal_grouping(p):
     from aotools.turbulence import profile_compression as pc
@@ -228,104 +760,119 @@ def _optimal_grouping(p):
     N, L, tier = p["N"], p["L"], p["tier"]
     if p["ladder"].startswith("fixed:"):
         hh, pp = FIXED[p["ladder"][6:]]
-        h, pats = numpy.array(hh, float), [numpy.array(pp, float), numpy.array(pp[::-1], float)]
+        h = numpy.array(hh, float)
+        pats = [("0", numpy.array(pp, float)), ("1", numpy.array(pp[::-1], float))]
     else:
         h = _ladders(N)[p["ladder"]]
-        pats = _strength_patterns(N, tier)
-        if len(pats) > 9:
-            pats = pats[::max(1, len(pats) // 9)]
-    answers = _answers(N, L)
-    possible = len(answers) > 0          # choice(size > population) raises in numpy: no restart possible
+        pl = _strength_patterns(N, tier)
+        if len(pl) > 9:
+            pl = pl[::max(1, len(pl) // 9)]
+        pats = [("%d" % i, c) for i, c in enumerate(pl)]
+        pats += [("z%d" % i, c) for i, c in enumerate(_zero_patterns(N, tier, False))]
     r2_top = 6 if tier == "quick" else 7
+    budget = _tree_budget(tier)
+    try:
+        env = _Draws(_library_modules())
+    except Exception:
+        env = _NoDraws()
     states = 0
-    for pi, cn2 in enumerate(pats):
+    for pi, cn2 in pats:
         best = ref.brute_force_optimum(h, cn2, L)
-        eq = ref.cost_of_splits(h, cn2, ref.equal_split(N, L))
+        eq = _equal_split_cost(h, cn2, N, L)
         for R in (0, 1, 2):
-            if R > 0 and not possible:
-                o.stat("og_restart_impossible_population_too_small", 1)
-                continue
             if R == 2 and N > r2_top:
                 continue
-            seqs = list(itertools.product(answers, repeat=R))
-            states += sum(len(answers) ** r for r in range(R + 1))
-            for seq in seqs:
-                sub = "p=%d:R=%d:ans=%s" % (pi, R, "/".join("".join(map(str, a)) or "-" for a in seq) or "-")
+            stack = [iter([()])]           # generators of scripts still to run (depth first, lazily expanded)
+            runs = 0
+            reasons = set()
+            drew = False
+            while stack:
+                script = next(stack[-1], None)
+                if script is None:
+                    stack.pop()
+                    continue
+                if runs >= budget:
+                    reasons.add("tree_above_budget")
+                    o.stat("caps_hit", 1)
+                    break
+                numpy.random.seed(20260927)            # whatever is passed through is at least reproducible
                 before = rng_state_digest()
-                with choice_oracle(seq) as log:
-                    try:
-                        hL, cL = pc.optimal_grouping(R, L, h.copy(), cn2.copy())
-                    except StopIteration:
-                        o.check("og_choice_requests_as_modelled", False, sub=sub, detail="more choice calls than restarts")
-                        continue
+                env.begin(script)
+                try:
+                    hL, cL = pc.optimal_grouping(R, L, h.copy(), cn2.copy())
+                finally:
+                    env.end()
+                runs += 1
+                trace, labels = list(env.trace), list(env.labels)
+                if env.passed_through:
+                    reasons.add("request_not_enumerated:" + ",".join(sorted(set(env.passed_through))))
+                elif rng_state_digest() != before:
+                    reasons.add("generator_state_moved_by_a_route_not_intercepted")
+                if env.inconsistent:
+                    reasons.add("requests_differ_between_runs_with_the_same_answers")
+                drew = drew or bool(trace) or bool(env.passed_through)
+                for name in set(env.primitives):
+                    o.stat("og_requests_" + name, list(env.primitives).count(name))
+                sub = "p=%s:R=%d:ans=%s" % (pi, R, "/".join(labels) or "-")
                 o.stat("lib_calls", 1)
-                o.stat("transitions", max(R, 1))
+                o.stat("transitions", max(len(trace), 1))
                 if L >= 2 and N >= 3:
                     o.stat("nontrivial", 1)
-                ok_req = len(log) == R and all(
-                    (q["a"] == list(range(N - 2)) or q["a"] == N - 2) and q["replace"] is False and
-                    (q["size"] == L - 1 or q["size"] == (L - 1,)) for q in log)
-                o.check("og_choice_requests_as_modelled", ok_req, sub=sub, detail=log[:2])
-                o.check("og_global_rng_untouched_when_choice_is_owned", rng_state_digest() == before, sub=sub)
-                hL, cL = numpy.asarray(hL, float), numpy.asarray(cL, float)
-                o.check("og_exactly_L_layers", hL.shape == (L,) and cL.shape == (L,), sub=sub,
-                        detail={"heights": hL, "cn2": cL, "L": L})
-                if hL.shape != (L,) or cL.shape != (L,):
-                    continue
-                tot = cn2.sum()
-                o.close("og_total_cn2_conserved", abs(cL.sum() - tot) / tot, 1e-12, sub=sub)
-                o.check("og_strengths_non_negative", bool(numpy.all(cL >= 0)), sub=sub)
-                o.check("og_heights_are_input_heights", all(any(x == y for y in h) for x in hL), sub=sub, detail=hL)
-                o.check("og_heights_increasing", bool(numpy.all(numpy.diff(hL) > 0)) if L > 1 else True, sub=sub, detail=hL)
-                # every input layer in exactly one group: the output must be explained by a contiguous partition
-                cost = ref.cost_of_output(h, cn2, hL, cL)
-                o.check("og_output_is_a_contiguous_grouping", cost is not None, sub=sub,
-                        detail={"heights": hL, "cn2": cL})
-                if cost is not None:
-                    scale = max(eq, best, 1e-300)
-                    o.check("og_cost_not_worse_than_equal_split", cost <= eq + 1e-9 * scale, sub=sub,
-                            measure=(cost - eq) / scale, tol=1e-9, detail={"cost": cost, "equal_split": eq, "optimum": best})
-                    o.check("og_cost_not_below_brute_force_optimum", cost >= best - 1e-9 * scale, sub=sub,
-                            detail={"cost": cost, "optimum": best})
-                    o.outcome([pi, R, round(cost / scale, 9)])
+                _judge_og(o, sub, h, cn2, L, hL, cL, best=best, eq=eq, outcome=[pi, R])
+                if len(trace) > len(script):
+                    stack.append(_siblings(tuple(env.chosen), len(script), trace))
+            states += runs
+            if R == 0:
+                continue
+            if reasons:
+                o.stat("og_answer_tree_not_claimed", 1)
+                for r in sorted(reasons):
+                    o.stat("og_not_claimed:" + r.split(":")[0], 1)
+                o.note("og_answer_tree_not_claimed_because", sorted(reasons))
+            else:
+                o.stat("og_answer_trees_complete", 1)
+                if not drew:
+                    o.stat("og_no_draw_request_seen_although_R>0", 1)
+            # the real generator (no interception at all): two seeds always, a sweep where the tree is not claimed
+            for s in range(SWEEP_SEEDS if reasons else 2):
+                numpy.random.seed(s)
+                hL, cL = pc.optimal_grouping(R, L, h.copy(), cn2.copy())
+                o.stat("lib_calls", 1)
+                _judge_og(o, "p=%s:R=%d:seed=%d" % (pi, R, s), h, cn2, L, hL, cL, best=best, eq=eq)
     o.stat("states", max(states, 1))
     o.stat("traces_validated_against_impl", o.stats.get("lib_calls", 0))
     return o
 
 
+# ------------------------------------------------------------------------------------------------------------
+# long profiles, realistic profiles
+# ------------------------------------------------------------------------------------------------------------
+
 def _long(p):
     """N-layer profile (exponential decay plus a strong layer at the very top, so that losing the last few layers
-    is visible): equivalent layers for several L, optimal grouping (one restart) for L = 3"""
+    is visible): equivalent layers for several L (also L = N/2 and N-1 up to N = 257), optimal grouping (one
+    restart) for L = 3"""
     from aotools.turbulence import profile_compression as pc
     o = Out()
     N = p["N"]
     h = numpy.linspace(0., 20000., N)
     cn2 = 1e-13 * numpy.exp(-h / 2500.) + 3e-15 * numpy.exp(-((h - 19800.) / 300.) ** 2)
     w = 5. + 25. * numpy.exp(-((h - 11000.) / 3000.) ** 2)
-    tot = cn2.sum()
-    for L in (1, 2, 3, 7, 33):
-        sub = "L=%d" % L
-        he, ce, we = pc.equivalent_layers(h.copy(), cn2.copy(), L, w.copy())
-        he, ce, we = (numpy.asarray(x, float) for x in (he, ce, we))
+    Ls = [1, 2, 3, 7, 33]
+    if N <= 257:
+        Ls += [N // 2, N - 1]
+    if N >= 4097:
+        Ls += [N // 2]
+    for L in Ls:
+        res = pc.equivalent_layers(h.copy(), cn2.copy(), L, w.copy())
         o.stat("lib_calls", 1)
-        o.check("el_exactly_L_layers", he.shape == (L,) and ce.shape == (L,), sub=sub)
-        o.check("el_strengths_non_negative", bool(numpy.all(ce >= 0)), sub=sub)
-        o.close("el_total_cn2_conserved", abs(ce.sum() - tot) / tot, 1e-12, sub=sub)
-        m_in = float((cn2 * h ** (5. / 3)).sum())
-        o.close("el_height_moment_conserved", abs(float((ce * he ** (5. / 3)).sum()) - m_in) / m_in, 1e-10, sub=sub)
-        v_in = float((cn2 * w ** (5. / 3)).sum())
-        o.close("el_wind_moment_conserved", abs(float((ce * we ** (5. / 3)).sum()) - v_in) / v_in, 1e-10, sub=sub)
+        _judge_el(o, "L=%d" % L, h, cn2, w, L, res)
     if p["og"]:
         L = 3
         numpy.random.seed(L)
         ho, co = pc.optimal_grouping(1, L, h.copy(), cn2.copy())
-        ho, co = numpy.asarray(ho, float), numpy.asarray(co, float)
         o.stat("lib_calls", 1)
-        o.check("og_exactly_L_layers", ho.shape == (L,) and co.shape == (L,))
-        o.close("og_total_cn2_conserved", abs(co.sum() - tot) / tot, 1e-12)
-        o.check("og_strengths_non_negative", bool(numpy.all(co >= 0)))
-        o.check("og_heights_are_input_heights", all(any(x == y for y in h) for x in ho))
-        o.check("og_heights_increasing", bool(numpy.all(numpy.diff(ho) > 0)))
+        _judge_og(o, None, h, cn2, L, ho, co)
     return o
 
 
@@ -340,11 +887,10 @@ def _gctm_exp(p):
         for L in (2, 3, 5, 6, 8):
             sub = "bump=%g:L=%d" % (bump, L)
             hL, cL = pc.GCTM(h.copy(), cn2.copy(), L)
-            hL, cL = numpy.asarray(hL, float), numpy.asarray(cL, float)
             o.stat("lib_calls", 3)
-            o.check("gctm_exactly_L_layers", hL.shape == (L,) and cL.shape == (L,), sub=sub)
-            o.check("gctm_strengths_non_negative", bool(numpy.all(cL >= 0)) and bool(numpy.all(hL >= 0)), sub=sub,
-                    detail={"cn2": cL, "h": hL})
+            if not numpy.all(_f64(hL) >= 0):
+                o.stat("gctm_negative_output_height_seen", 1)      # not excluded by the statement
+            _judge_gctm(o, sub, h, cn2, L, hL, cL, single=False)
             if L in (2, 3, 5) and bump == 0.0:
                 # the optional scalings are a numerical device: with any sensible choice the returned layers
                 # reproduce the moments of the input profile (in whatever units they are measured)
@@ -354,28 +900,217 @@ def _gctm_exp(p):
                             hS, cS = pc.GCTM(h.copy(), cn2.copy(), L, h_scaling=hs, cn2_scaling=cs)
                         else:
                             hS, cS = pc.GCTM(h.copy(), cn2.copy(), L, hs, cs)
-                        hS, cS = numpy.asarray(hS, float), numpy.asarray(cS, float)
                         o.stat("lib_calls", 1)
-                        m0 = ref.moments(h / hs, cn2 / cs, L)
-                        m1 = ref.moments(hS / hs, cS / cs, L)
-                        ok_shape = hS.shape == (L,) and cS.shape == (L,)
-                        o.close("gctm_moments_reproduced_with_other_scalings",
-                                float(numpy.linalg.norm(m1 - m0) / numpy.linalg.norm(m0)) if ok_shape else float("inf"), GCTM_TOL,
-                                sub="%s:h_scaling=%g:cn2_scaling=%g:%s" % (sub, hs, cs, form))
-            he, ce = pc.equivalent_layers(h.copy(), cn2.copy(), L)
-            he, ce = numpy.asarray(he, float), numpy.asarray(ce, float)
-            tot = cn2.sum()
-            o.check("el_exactly_L_layers", he.shape == (L,) and ce.shape == (L,), sub=sub)
-            o.check("el_strengths_non_negative", bool(numpy.all(ce >= 0)), sub=sub)
-            o.close("el_total_cn2_conserved", abs(ce.sum() - tot) / tot, 1e-12, sub=sub)
-            m_in = float((cn2 * h ** (5. / 3)).sum())
-            o.close("el_height_moment_conserved", abs(float((ce * he ** (5. / 3)).sum()) - m_in) / m_in, 1e-10, sub=sub)
+                        _judge_gctm(o, "%s:h_scaling=%g:cn2_scaling=%g:%s" % (sub, hs, cs, form), h, cn2, L, hS, cS,
+                                    hs=hs, cs=cs, clause="gctm_moments_reproduced_with_other_scalings", single=False)
+            res = pc.equivalent_layers(h.copy(), cn2.copy(), L)
+            _judge_el(o, sub, h, cn2, None, L, res)
             numpy.random.seed(L)
             ho, co = pc.optimal_grouping(1, L, h.copy(), cn2.copy())
-            ho, co = numpy.asarray(ho, float), numpy.asarray(co, float)
-            o.check("og_exactly_L_layers", ho.shape == (L,) and co.shape == (L,), sub=sub)
-            o.close("og_total_cn2_conserved", abs(co.sum() - tot) / tot, 1e-12, sub=sub)
-            o.check("og_strengths_non_negative", bool(numpy.all(co >= 0)), sub=sub)
-            o.check("og_heights_are_input_heights", all(any(x == y for y in h) for x in ho), sub=sub)
-            o.check("og_heights_increasing", bool(numpy.all(numpy.diff(ho) > 0)) if L > 1 else True, sub=sub)
+            _judge_og(o, sub, h, cn2, L, ho, co)
+    return o
+
+
+# ------------------------------------------------------------------------------------------------------------
+# the same values held differently by the caller: dtypes and memory layouts, layer order, reuse of one object
+# ------------------------------------------------------------------------------------------------------------
+
+def _tables():
+    """(name, h, cn2, w) with whole-metre heights and whole m/s winds, as they come out of a profile table"""
+    h8 = numpy.arange(0, 16000, 2000)
+    out = [("grid8", h8, numpy.array([5e-14, 1e-14, 2e-15, 5e-15, 1e-14, 2e-15, 1e-15, 5e-15]),
+            numpy.array([4, 9, 14, 10, 33, 21, 12, 7])),
+           ("site9", numpy.array([0, 30, 200, 1000, 2500, 5000, 9000, 12000, 17000]),
+            numpy.array([4e-14, 2e-14, 5e-15, 0., 1e-14, 2e-15, 1e-14, 5e-15, 1e-15]),
+            numpy.array([3, 5, 8, 8, 12, 20, 35, 28, 9]))]
+    return out
+
+
+def _storage_variants(h, cn2, w):
+    """(name, h, cn2, w, rounding scale): the same values in other dtypes / layouts"""
+    hf, pf, wf = h.astype(float), cn2.astype(float), w.astype(float)
+    out = [("int64_heights_winds", h.astype(numpy.int64), pf.copy(), w.astype(numpy.int64), 1.0),
+           ("int32_heights_winds", h.astype(numpy.int32), pf.copy(), w.astype(numpy.int32), 1.0)]
+    tab = numpy.zeros((len(h), 3))
+    tab[:, 0], tab[:, 1], tab[:, 2] = hf, pf, wf
+    out.append(("strided_columns", tab[:, 0], tab[:, 1], tab[:, 2], 1.0))
+    big = numpy.zeros((3, 2 * len(h)))
+    big[0, ::2], big[1, ::2], big[2, ::2] = hf, pf, wf
+    out.append(("every_second_element", big[0, ::2], big[1, ::2], big[2, ::2], 1.0))
+    ro = [x.copy() for x in (hf, pf, wf)]
+    for x in ro:
+        x.flags.writeable = False
+    out.append(("read_only", ro[0], ro[1], ro[2], 1.0))
+    # single precision: conservation "exactly" is then exact to single-precision rounding (library: <= 2e-7)
+    out.append(("float32", hf.astype(numpy.float32), pf.astype(numpy.float32), wf.astype(numpy.float32), 1e7))
+    return out
+
+
+def _storage(p):
+    from aotools.turbulence import profile_compression as pc
+    o = Out()
+    meth = p["method"]
+    for tname, h, cn2, w in _tables():
+        for vname, hv, pv, wv, rt in _storage_variants(h, cn2, w):
+            for L in (1, 2, 3, 5):
+                sub = "%s:%s:L=%d" % (tname, vname, L)
+                vals = (_f64(hv).copy(), _f64(pv).copy(), _f64(wv).copy())     # the values the library is given
+                if meth == "el":
+                    res = pc.equivalent_layers(hv, pv, L, wv)
+                    o.stat("lib_calls", 2)
+                    _judge_el(o, sub, vals[0], vals[1], vals[2], L, res, rt=rt)
+                    _judge_el(o, sub + ":nowind", vals[0], vals[1], None, L, pc.equivalent_layers(hv, pv, L), rt=rt)
+                elif meth == "og":
+                    # (single precision: the reference reconstructs the grouping from group sums compared at 1e-9,
+                    # which single-precision sums do not meet - only the clauses that need no reconstruction)
+                    best = ref.brute_force_optimum(vals[0], vals[1], L) if rt == 1.0 else None
+                    eq = _equal_split_cost(vals[0], vals[1], len(hv), L) if rt == 1.0 else None
+                    for R in (0, 1):
+                        numpy.random.seed(L)
+                        ho, co = pc.optimal_grouping(R, L, hv, pv)
+                        o.stat("lib_calls", 1)
+                        _judge_og(o, sub + ":R=%d" % R, vals[0], vals[1], L, ho, co, best=best, eq=eq, rt=rt)
+                else:
+                    if not _slabs_clearly_nonempty(vals[0], L) or not numpy.all(vals[1] > 0):
+                        o.stat("gctm_outside_domain_empty_slab_or_layer_on_slab_edge", 1)
+                        continue
+                    hL, cL = pc.GCTM(hv, pv, L)
+                    o.stat("lib_calls", 1)
+                    _judge_gctm(o, sub, vals[0], vals[1], L, hL, cL)
+                o.stat("nontrivial", 1 if L >= 2 else 0)
+                # the caller's arrays are as they were
+                o.check("arguments_unchanged", bool(numpy.array_equal(_f64(hv), vals[0]) and
+                                                    numpy.array_equal(_f64(pv), vals[1]) and
+                                                    numpy.array_equal(_f64(wv), vals[2])), sub=sub)
+    return o
+
+
+def _reuse(p):
+    """one caller-owned array object through the history f(a); f(a); caller edits a; f(a) (mc.variants.check_reuse),
+    for each argument of each method in turn.  Heights in units of 10 km and strengths in units of 1e-13 (all three
+    methods are indifferent to the units; GCTM is told so through its scalings), so that the results are of order
+    one and the library's own result arrays can be handed to check_reuse as they are."""
+    from aotools.turbulence import profile_compression as pc
+    o = Out()
+    meth = p["method"]
+    h0 = _ladders(8)["gaps"] / 1e4
+    p0 = numpy.array([5e-14, 1e-14, 2e-15, 5e-15, 1e-14, 2e-15, 1e-15, 5e-15]) / 1e-13
+    w0 = _winds(8)[1] / 10.
+    keep = {"h": h0.copy(), "p": p0.copy(), "w": w0.copy()}
+
+    def rescale(a):                       # the caller's edit of a strength array: another profile, still positive
+        a[...] = a[::-1].copy() * 3.
+
+    for L in (2, 3):
+        for which in ("h", "p", "w") if meth == "el" else ("h", "p"):
+            other = dict((k, v.copy()) for k, v in keep.items())
+
+            def f(a, which=which, other=other, L=L):
+                args = dict(other)
+                args[which] = a
+                if meth == "el":
+                    return pc.equivalent_layers(args["h"], args["p"], L, args["w"])
+                if meth == "og":
+                    numpy.random.seed(7)
+                    return pc.optimal_grouping(1, L, args["h"], args["p"])
+                return pc.GCTM(args["h"], args["p"], L, 1., 1.)
+            # same values -> same deterministic computation; 1e-9 leaves room for a different summation order
+            n = variants.check_reuse(o, "reuse", f, keep[which], 1e-9, sub="%s:L=%d" % (which, L),
+                                     mutate=rescale if which == "p" else variants.flip_all)
+            o.stat("lib_calls", n)
+            o.stat("nontrivial", 1)
+            o.check("arguments_unchanged", all(numpy.array_equal(other[k], keep[k]) for k in other if k != which),
+                    sub="%s:L=%d:other_arguments" % (which, L))
+    return o
+
+
+def _order(p):
+    """the layers of a profile listed top-down or in no particular order: equivalent layers and the moment-conserving
+    method do not depend on the order in which (height, strength, wind) triples are listed"""
+    from aotools.turbulence import profile_compression as pc
+    o = Out()
+    tier = p["tier"]
+    for N in (5, 8) if tier == "quick" else (4, 5, 8, 11):
+        perms = [("descending", numpy.arange(N)[::-1]), ("shuffled", numpy.array([(5 * i + 3) % N for i in range(N)])
+                 if math.gcd(5, N) == 1 else numpy.array([(3 * i + 1) % N for i in range(N)]))]
+        lad = _ladders(N)
+        for name in sorted(lad):
+            h = lad[name]
+            pats = _strength_patterns(N, tier)
+            pats = pats[::max(1, len(pats) // 3)][:3] + _zero_patterns(N, tier, False)[:2]
+            for pi, cn2 in enumerate(pats):
+                w = _winds(N)[pi % 3]
+                for oname, perm in perms:
+                    hp, pp, wp = h[perm].copy(), cn2[perm].copy(), w[perm].copy()
+                    for L in range(1, N):
+                        sub = "N=%d:%s:p=%d:%s:L=%d" % (N, name, pi, oname, L)
+                        ha, pa, wa = hp.copy(), pp.copy(), wp.copy()
+                        res = pc.equivalent_layers(ha, pa, L, wa)
+                        o.stat("lib_calls", 1)
+                        o.stat("nontrivial", 1 if L >= 2 else 0)
+                        _judge_el(o, sub, hp, pp, wp, L, res)
+                        # (an in-place sort of the caller's profile is invisible on ascending input)
+                        o.check("arguments_unchanged", bool(numpy.array_equal(ha, hp) and numpy.array_equal(pa, pp)
+                                                            and numpy.array_equal(wa, wp)), sub=sub)
+                        if L <= 3 and pi == 0 and h.max() > 10. and numpy.all(cn2 > 0) and _slabs_clearly_nonempty(h, L):
+                            c100 = pp * 100.
+                            ha, pa = hp.copy(), c100.copy()
+                            hL, cL = pc.GCTM(ha, pa, L)
+                            o.stat("lib_calls", 1)
+                            _judge_gctm(o, sub, hp, c100, L, hL, cL)
+                            o.check("arguments_unchanged", bool(numpy.array_equal(ha, hp) and numpy.array_equal(pa, c100)),
+                                    sub=sub + ":gctm")
+    return o
+
+
+def _has_parameters(f, names):
+    try:
+        ps = inspect.signature(f).parameters
+        return all(n in ps and ps[n].kind in (inspect.Parameter.POSITIONAL_OR_KEYWORD, inspect.Parameter.KEYWORD_ONLY)
+                   for n in names)
+    except Exception:
+        return False
+
+
+def _conventions(p):
+    """calling conventions a caller may legitimately use: arguments by their documented names, L / R as NumPy
+    integers (len(h) // k), more restarts than the answer trees cover (R = 3, real generator, seeds), L close to N"""
+    from aotools.turbulence import profile_compression as pc
+    o = Out()
+    for N in (9, 12):
+        h = _ladders(N)["gaps"]
+        cn2 = _strength_patterns(N, "quick")[5] * 100.
+        w = _winds(N)[0]
+        for L in (1, 2, N // 2, N - 2, N - 1):
+            sub = "N=%d:L=%d" % (N, L)
+            Li = numpy.int64(L)
+            best = ref.brute_force_optimum(h, cn2, L)
+            eq = _equal_split_cost(h, cn2, N, L)
+            # documented parameter names (docstrings: h, p, L, w / R, L, h, p / h, p, L, h_scaling, cn2_scaling)
+            if _has_parameters(pc.equivalent_layers, ("h", "p", "L", "w")):
+                _judge_el(o, sub + ":keywords", h, cn2, w, L, pc.equivalent_layers(h=h.copy(), p=cn2.copy(), L=L, w=w.copy()))
+                o.stat("lib_calls", 1)
+            else:
+                o.stat("keyword_form_not_claimed", 1)
+            _judge_el(o, sub + ":numpy_int", h, cn2, w, L, pc.equivalent_layers(h.copy(), cn2.copy(), Li, w=w.copy()))
+            o.stat("lib_calls", 1)
+            for R in (1, 3):
+                for s in (0, 1, 2):
+                    numpy.random.seed(s)
+                    if s == 0 and _has_parameters(pc.optimal_grouping, ("R", "L", "h", "p")):
+                        ho, co = pc.optimal_grouping(R=R, L=L, h=h.copy(), p=cn2.copy())
+                    elif s == 1:
+                        ho, co = pc.optimal_grouping(numpy.int64(R), Li, h.copy(), cn2.copy())
+                    else:
+                        ho, co = pc.optimal_grouping(R, L, h.copy(), cn2.copy())
+                    o.stat("lib_calls", 1)
+                    o.stat("nontrivial", 1 if L >= 2 else 0)
+                    _judge_og(o, "%s:R=%d:seed=%d" % (sub, R, s), h, cn2, L, ho, co, best=best, eq=eq)
+            if L <= 3 and _slabs_clearly_nonempty(h, L):
+                if _has_parameters(pc.GCTM, ("h", "p", "L")):
+                    hL, cL = pc.GCTM(h=h.copy(), p=cn2.copy(), L=L)
+                    _judge_gctm(o, sub + ":keywords", h, cn2, L, hL, cL)
+                hL, cL = pc.GCTM(h.copy(), cn2.copy(), Li)
+                _judge_gctm(o, sub + ":numpy_int", h, cn2, L, hL, cL)
+                o.stat("lib_calls", 2)
     return o
